@@ -113,6 +113,20 @@ func (n *QuoteExpressionNode) Equal(other value.Value) bool {
 func (n *QuoteExpressionNode) String() string {
 	var buff strings.Builder
 
+	if n.Kind == QUOTE_TYPE_KIND || n.Kind == QUOTE_PATTERN_KIND {
+		// `quote_type T` and `quote_pattern p` take a single
+		// type / pattern and are not terminated with `end`
+		if n.Kind == QUOTE_TYPE_KIND {
+			buff.WriteString("quote_type ")
+		} else {
+			buff.WriteString("quote_pattern ")
+		}
+		for _, stmt := range n.Body {
+			buff.WriteString(stmt.String())
+		}
+		return buff.String()
+	}
+
 	switch n.Kind {
 	case QUOTE_EXPRESSION_KIND:
 		buff.WriteString("quote\n")
